@@ -131,6 +131,12 @@ def show(kind, n, dt, cfg):
 
 
 def work(job):
+    p = _work(job)
+    tag_job(p, job)
+    return p
+
+
+def _work(job):
     core.use_repo()
     family, kind, n, dt_init, i0 = job
     p = core.Part()
@@ -212,7 +218,37 @@ def work(job):
     return p
 
 
+def tag_job(p, job, start=0):
+    """Put the shard identity into the replay record of every violation found from index `start` on."""
+    for v in p.violations[start:]:
+        if isinstance(v[3], dict):
+            v[3].setdefault("job", repr(job))
+
+
+def replay(path, runner, pid):
+    """./vcheck C45 --replay <file>: re-run the shard that produced the stored violation; exit 1 if the same key fails again."""
+    import json
+    rec = json.load(open(path))
+    if not isinstance(rec.get("replay"), dict) or "job" not in rec["replay"]:
+        print("replay record carries no shard identity; run the check again to regenerate it")
+        return 2
+    job = eval(rec["replay"]["job"], {"__builtins__": {}, "inf": float("inf"), "nan": float("nan")})
+    p = runner(job)
+    hit = False
+    for g, ex, what, rep in p.violations:
+        same = "%s|%s" % (g, ex) == rec["key"]
+        hit = hit or same
+        print("%s %s|%s\n  %s" % ("REPRODUCED" if same else "other violation in the same shard:", g, ex, what))
+    if not hit:
+        print("not reproduced: %s" % rec["key"])
+    print("REPLAY property=%s reproduced=%s shard_evaluations=%d" % (pid, hit, p.evaluations))
+    return 1 if hit else 0
+
+
 def run():
+    import os
+    if os.environ.get("VERIF_REPLAY"):
+        return replay(os.environ["VERIF_REPLAY"], work, "C45")
     ck = core.Check("C45", "exploration", META["technique"])
     nmax = 3 if core.TIER == "quick" else 4
     jobs = []
